@@ -18,6 +18,14 @@
 //     ASan red zone. A fresh digest object is used per case.
 //     response = the returned std::string bytes (raw digest or ASCII hex).
 //
+//   payload[0] == 'G'  (digest case on a GENERATED message: megabytes do not travel through the pipe)
+//     [1] algo, [2] form, [3] ctor, [4..7] nchunks, chunk table -- exactly as for 'D' -- then u64 seed, u32 length.
+//     The message is gen_bytes(seed, length) := Python's random.Random(seed).randbytes(length) (MT19937 seeded with
+//     init_by_array over the 32-bit words of the seed; implemented below, checked by the Python side at start-up
+//     through the 'P' request). Chunks are cut from it and fed exactly like in a 'D' case.
+//
+//   payload[0] == 'P'  (generator probe) u64 seed, u32 length -> response = gen_bytes(seed, length)
+//
 //   payload[0] == 'S'  (SipHash case)
 //     [1] variant 0 siphash_plain(key,m,len)  1 siphash_sse2(key,m,len)  2 siphash(key,m,len)
 //                 3 siphash(const uint8_t*, len)  4 siphash(const char*, len)  5 siphash(tlx::string_view)
@@ -64,6 +72,75 @@ struct Exact {
     Exact(const Exact&) = delete;
     ~Exact() { std::free(p); }
 };
+
+std::uint64_t rd64(const std::uint8_t* p) { return std::uint64_t(rd32(p)) | (std::uint64_t(rd32(p + 4)) << 32); }
+
+//! MT19937 with CPython's seeding (random.seed(int) = init_by_array over the little-endian 32-bit words of |seed|) and
+//! CPython's randbytes(n) = getrandbits(8n).to_bytes(n, 'little'): full 32-bit outputs little-endian, the last partial
+//! word is the TOP 8*(n%4) bits of one more output.
+struct PyMT {
+    std::uint32_t mt[624];
+    int idx;
+    void init_genrand(std::uint32_t s) {
+        mt[0] = s;
+        for (int i = 1; i < 624; ++i) mt[i] = 1812433253U * (mt[i - 1] ^ (mt[i - 1] >> 30)) + std::uint32_t(i);
+        idx = 624;
+    }
+    explicit PyMT(std::uint64_t seed) {
+        std::uint32_t key[2] = {std::uint32_t(seed), std::uint32_t(seed >> 32)};
+        std::size_t len = key[1] ? 2 : 1;
+        init_genrand(19650218U);
+        std::size_t i = 1, j = 0;
+        for (std::size_t k = 624; k; --k) {
+            mt[i] = (mt[i] ^ ((mt[i - 1] ^ (mt[i - 1] >> 30)) * 1664525U)) + key[j] + std::uint32_t(j);
+            ++i, ++j;
+            if (i >= 624) mt[0] = mt[623], i = 1;
+            if (j >= len) j = 0;
+        }
+        for (std::size_t k = 623; k; --k) {
+            mt[i] = (mt[i] ^ ((mt[i - 1] ^ (mt[i - 1] >> 30)) * 1566083941U)) - std::uint32_t(i);
+            ++i;
+            if (i >= 624) mt[0] = mt[623], i = 1;
+        }
+        mt[0] = 0x80000000U;
+    }
+    std::uint32_t next() {
+        if (idx >= 624) {
+            for (int k = 0; k < 624; ++k) {
+                std::uint32_t y = (mt[k] & 0x80000000U) | (mt[(k + 1) % 624] & 0x7fffffffU);
+                mt[k] = mt[(k + 397) % 624] ^ (y >> 1) ^ ((y & 1U) ? 0x9908b0dfU : 0U);
+            }
+            idx = 0;
+        }
+        std::uint32_t y = mt[idx++];
+        y ^= y >> 11;
+        y ^= (y << 7) & 0x9d2c5680U;
+        y ^= (y << 15) & 0xefc60000U;
+        y ^= y >> 18;
+        return y;
+    }
+};
+
+//! gen_bytes(seed, len); the last message is kept (consecutive requests hash the same message in different ways)
+const std::vector<std::uint8_t>& gen_bytes(std::uint64_t seed, std::uint32_t len) {
+    static std::vector<std::uint8_t> buf;
+    static std::uint64_t have_seed = 0;
+    static bool have = false;
+    if (have && have_seed == seed && buf.size() == len) return buf;
+    buf.assign(len, 0);
+    PyMT g(seed);
+    std::size_t full = len / 4, rest = len % 4;
+    for (std::size_t w = 0; w < full; ++w) {
+        std::uint32_t r = g.next();
+        for (int b = 0; b < 4; ++b) buf[4 * w + std::size_t(b)] = std::uint8_t(r >> (8 * b));
+    }
+    if (rest) {
+        std::uint32_t r = g.next() >> (32 - 8 * rest);
+        for (std::size_t b = 0; b < rest; ++b) buf[4 * full + b] = std::uint8_t(r >> (8 * b));
+    }
+    have = true, have_seed = seed;
+    return buf;
+}
 
 struct Chunk {
     std::uint32_t len;
@@ -150,7 +227,7 @@ std::string run_helper(int algo, int form, const std::uint8_t* msg, std::uint32_
     }
 }
 
-std::string do_digest(const std::uint8_t* p, std::uint32_t n) {
+std::string do_digest(const std::uint8_t* p, std::uint32_t n, bool generated) {
     if (n < 8) bad("short digest header");
     int algo = p[1], form = p[2], ctor = p[3];
     if (algo > 3 || form > 7 || ctor > 2) bad("digest selector");
@@ -159,6 +236,13 @@ std::string do_digest(const std::uint8_t* p, std::uint32_t n) {
     const std::uint8_t* tab = p + 8;
     const std::uint8_t* msg = tab + std::size_t(nch) * 5;
     std::uint32_t mlen = n - 8 - nch * 5;
+    if (generated) {
+        if (mlen != 12) bad("generated-message trailer");
+        const std::vector<std::uint8_t>& g = gen_bytes(rd64(msg), rd32(msg + 8));
+        static const std::uint8_t none = 0;
+        mlen = static_cast<std::uint32_t>(g.size());
+        msg = g.empty() ? &none : g.data();
+    }
     if (form >= 4) return run_helper(algo, form, msg, mlen);
     std::vector<Chunk> chunks;
     chunks.reserve(nch);
@@ -257,7 +341,14 @@ int main() {
             out.assign(1, '\0');
 #endif
             break;
-        case 'D': out = do_digest(buf.data(), n); break;
+        case 'D': out = do_digest(buf.data(), n, false); break;
+        case 'G': out = do_digest(buf.data(), n, true); break;
+        case 'P': {
+            if (n != 13) bad("probe");
+            const std::vector<std::uint8_t>& g = gen_bytes(rd64(buf.data() + 1), rd32(buf.data() + 9));
+            out.assign(reinterpret_cast<const char*>(g.data()), g.size());
+            break;
+        }
         case 'S': out = do_siphash(buf.data(), n); break;
         default: bad("kind");
         }
